@@ -278,6 +278,7 @@ class Client:
         self.request_semaphore = asyncio.Semaphore(1)
         self.pending_request = None
         self.pending_response = None
+        self.disconnected = False
         self.notification_subscribers = {}  # Subscriber set, by attribute handle
         self.indication_subscribers = {}  # Subscriber set, by attribute handle
         self.services = []
@@ -357,6 +358,9 @@ class Client:
         # Wait until we can send (only one pending command at a time for the connection)
         response = None
         async with self.request_semaphore:
+            if self.disconnected:
+                # The bearer was closed while we were waiting for our turn
+                raise core.InvalidStateError('bearer closed')
             assert self.pending_request is None
             assert self.pending_response is None
 
@@ -1132,6 +1136,7 @@ class Client:
 
     def on_disconnection(self, *args) -> None:
         del args  # unused.
+        self.disconnected = True
         if self.pending_response and not self.pending_response.done():
             self.pending_response.cancel()
 
